@@ -501,6 +501,32 @@ pub fn c18(ctx: &mut Ctx) {
                 conv_err!(PayloadFeedback, 206, "PayloadFeedback");
             }
         }
+        // the same for a generic packet that a caller made from an unknown packet over these bytes (any type number):
+        // its conversions are the typed parsers' verdicts, so their errors are judged like the typed parsers' errors
+        if let Ok(u) = Unknown::parse(s) {
+            let wrapped = Packet::from(u);
+            macro_rules! wconv_err {
+                ($T:ty, $tp:expr) => {
+                    l.transitions += 2;
+                    match guard::catch(|| [<$T>::try_from(&wrapped).err(), wrapped.try_as::<$T>().err()]) {
+                        Err(pi) => l.subject_panic("conversion:from-wrapped-unknown", &pi, || hex_short(s)),
+                        Ok(errs) => {
+                            for e in errs.into_iter().flatten() {
+                                any_err = true;
+                                judge_error(l, "conversion-from-wrapped-unknown", s, &e, Some($tp.pt()), Some($tp.min()), true);
+                            }
+                        }
+                    }
+                };
+            }
+            wconv_err!(SenderReport, TP::Sr);
+            wconv_err!(ReceiverReport, TP::Rr);
+            wconv_err!(Sdes, TP::Sdes);
+            wconv_err!(Bye, TP::Bye);
+            wconv_err!(App, TP::App);
+            wconv_err!(TransportFeedback, TP::Tfb);
+            wconv_err!(PayloadFeedback, TP::Pfb);
+        }
         l.transitions += 1;
         match guard::catch(|| ReportBlock::parse(s).map(|_| ())) {
             Err(pi) => l.subject_panic("parse:ReportBlock", &pi, || hex_short(s)),
@@ -748,5 +774,30 @@ fn c12_case(s: &[u8], l: &mut Local) {
         if !matches!(&back, Packet::Unknown(x) if *x == u) {
             l.violation("from-typed-wrong:Unknown", || hex_short(s), || format!("{:?}", back));
         }
+        // ... and the three-step chain Unknown::parse -> Packet::from -> conversion: a generic packet that holds an
+        // unknown packet converts exactly as the typed parser parses those bytes - also when the bytes carry a
+        // known type number (the generic parser never builds such a value, but a caller can)
+        macro_rules! wconv {
+            ($T:ty) => {{
+                l.transitions += 3;
+                let want = <$T>::parse(s);
+                let by_ref = <$T>::try_from(&back);
+                let by_try_as = back.try_as::<$T>();
+                let by_val = <$T>::try_from(Packet::from(Unknown::parse(s).unwrap()));
+                l.validated += 3;
+                for (how, got) in [("TryFrom<&Packet(Unknown)>", &by_ref), ("Packet(Unknown)::try_as", &by_try_as), ("TryFrom<Packet(Unknown)>", &by_val)] {
+                    if *got != want {
+                        l.violation(format!("conversion-wrong:{}:{}", how, stringify!($T)), || hex_short(s), || format!("{} -> {}: got {:?}, expected {:?}", how, stringify!($T), got, want));
+                    }
+                }
+            }};
+        }
+        wconv!(SenderReport);
+        wconv!(ReceiverReport);
+        wconv!(Sdes);
+        wconv!(Bye);
+        wconv!(App);
+        wconv!(TransportFeedback);
+        wconv!(PayloadFeedback);
     }
 }
